@@ -84,6 +84,17 @@ fn no_pressure(mut params: GenParams) -> GenParams {
     params
 }
 
+/// Scale variant of a profile: long histories over many keys, weights beyond 2^31.
+pub fn scaled(mut params: GenParams) -> GenParams {
+    params.max_ops = 300;
+    params.max_key = 48;
+    params.limits = if params.pressure { vec![1000, 100_000, 1 << 33, 1 << 40] } else { vec![1 << 20, 1 << 40] };
+    params.counters = vec![16, 64, 1000];
+    params
+}
+
+const RULE_SCALE: &str = "scale variant of the main campaign: histories of up to 300 operations over up to 48 keys, cache weights up to 2^40 with key weights beyond 2^31, same oracles; non-trivial by the rule of the main campaign";
+
 pub fn profile(property: &str) -> GenParams {
     let mut params = GenParams::base();
     match property {
@@ -233,6 +244,18 @@ pub fn seq_campaigns(property: &str) -> Vec<SeqCampaign> {
         ],
         _ => Vec::new(),
     }
+}
+
+/// Campaigns of a property plus, for the model-based properties, the scale variant of its main campaign.
+pub fn seq_campaigns_with_scale(property: &str) -> Vec<SeqCampaign> {
+    let mut campaigns = seq_campaigns(property);
+    if matches!(property, "C01" | "C03" | "C05" | "C06" | "C07" | "C08" | "C10" | "C16") {
+        if let Some(main) = campaigns.first() {
+            let scale = SeqCampaign { name: "seq-scale", params: scaled(main.params.clone()), policy: Policy::default(), cases_quick: 400, cases_thorough: 6000, nt: main.nt, rule: RULE_SCALE };
+            campaigns.insert(1, scale);
+        }
+    }
+    campaigns
 }
 
 pub fn seq_case_result(case: &SeqCase, policy: &Policy, nt: NtRule) -> CaseResult { seq_case_result_focus(case, policy, nt, "") }
